@@ -30,6 +30,7 @@ package fix
 //@ interface Value
 //@   method FromBytes(d []byte) (err error):
 //@     modifies self.*
+//@     ensures[C02,C03] imp(istype(self, *Raw), err == nil && self.(*Raw).value == d)
 //@   method Value() (res interface{}):
 //@     pure
 //@     ensures[C11] imp(istype(self, *Int), istype(res, int))
